@@ -165,8 +165,15 @@ def impl_compare(case):
             return Document(trees.to_xml(t)).root
         return trees.build_api(t)
 
+    from delb import altered_default_filters
+
     a = make(case["a"], case["how"])
     b = make(case["b"], case["how"])
+    # all nodes stay referenced for the duration of the case: unreferenced adjacent text nodes may be coalesced by a
+    # garbage collection (C04), which changes the number of text nodes compare_trees sees (false alarm of the first
+    # thorough run, DESIGN.md section 5)
+    with altered_default_filters():
+        keep = list(a.iterate_descendants()) + list(b.iterate_descendants())  # noqa: F841
     ta, tb = trees.extract(a), trees.extract(b)
     out = {}
     with ambient(case["filter"]):
